@@ -188,6 +188,8 @@ var vpJointShapes = []int{0, 1, 7}
 func vpH_det_F_MsgVote()          { vpDetCell(StateFollower, pb.MsgVote, vpJointShapes) }
 func vpH_det_F_MsgApp()           { vpDetCell(StateFollower, pb.MsgApp, []int{0}) }
 func vpH_det_F_MsgHup()           { vpDetCell(StateFollower, pb.MsgHup, vpJointShapes) }
+func vpH_det_F_MsgHup_bigids()    { vpDetCell(StateFollower, pb.MsgHup, []int{10}) }
+func vpH_det_L_MsgBeat_bigids()   { vpDetCell(StateLeader, pb.MsgBeat, []int{10}) }
 func vpH_det_F_MsgSnap()          { vpDetCell(StateFollower, pb.MsgSnap, []int{0}) }
 func vpH_det_C_MsgVoteResp()      { vpDetCell(StateCandidate, pb.MsgVoteResp, vpJointShapes) }
 func vpH_det_P_MsgPreVoteResp()   { vpDetCell(StatePreCandidate, pb.MsgPreVoteResp, vpJointShapes) }
